@@ -1,1 +1,1079 @@
-fn main() { eprintln!("engine not built yet"); std::process::exit(2); }
+//! C19 — Tensor indexing is a row-major bijection with per-dimension bounds checks.
+//!
+//! Form I (small-scope input enumeration, exhaustive): every shape of rank 1..=4 with extents 1..=E
+//! (E = 4 quick, 5 thorough; the rank is a const generic, instantiated by macro), and for every shape
+//! every valid multi-index and every multi-index that is out of range in exactly one dimension, run on
+//! the REAL `rlib_tensor::Tensor` and compared with a reference written here (an odometer over the
+//! multi-indices whose k-th element must be storage element k, cross-checked against sum idx*stride).
+//!
+//! Check families (one violation reported per family: the first failing case in enumeration order, which
+//! is simplest-first: rank, then element count, then lexicographic shape, then lexicographic index):
+//!   from_vec_valid, index_row_major, get_index, from_slice, new_writes, iter_order,
+//!   index_mut_writes_one, oob_panics, ctor_rejects_zero_extent, ctor_rejects_bad_len,
+//!   io_roundtrip, write_format, eq_data, eq_shape.
+//!
+//! Every family is made of small "atoms" (one plain execution of the real code + comparison); the
+//! enumeration calls the atoms, and `confirm` (used by --replay and by Run::finish) calls exactly one
+//! atom with the recorded parameters — no enumeration around it.
+
+use rayon::prelude::*;
+use rlib_io::{Readable, Reader, Writable, Writer};
+use rlib_tensor::Tensor;
+use std::collections::{BTreeMap, BTreeSet};
+use std::fmt::Debug;
+use vcore::*;
+
+// ---------------------------------------------------------------------------------------------
+// reference model
+
+type E = i64;
+/// distinct, non-zero, non-default element values: storage element k holds 10 + k
+fn val(k: usize) -> E {
+    10 + k as E
+}
+const SENTINEL: E = -7;
+const FILL: E = -1;
+
+fn product(dims: &[usize]) -> usize {
+    dims.iter().product()
+}
+
+/// row-major strides: last dimension has stride 1
+fn strides<const D: usize>(dims: &[usize; D]) -> [usize; D] {
+    let mut s = [1usize; D];
+    for i in (0..D - 1).rev() {
+        s[i] = s[i + 1] * dims[i + 1];
+    }
+    s
+}
+
+/// sum idx*stride (wrapping: the out-of-range probes include usize::MAX)
+fn flat<const D: usize>(idx: &[usize; D], st: &[usize; D]) -> usize {
+    let mut o = 0usize;
+    for i in 0..D {
+        o = o.wrapping_add(idx[i].wrapping_mul(st[i]));
+    }
+    o
+}
+
+/// the offset the same index would have in a column-major layout (first index fastest)
+fn flat_colmajor<const D: usize>(idx: &[usize; D], dims: &[usize; D]) -> usize {
+    let mut o = 0usize;
+    let mut sz = 1usize;
+    for i in 0..D {
+        o += idx[i] * sz;
+        sz *= dims[i];
+    }
+    o
+}
+
+/// Odometer: all multi-indices of the shape, last coordinate fastest.  Does not use strides; the k-th
+/// index produced is, by definition of row-major, the index of storage element k.
+fn all_indices<const D: usize>(dims: &[usize; D]) -> Vec<[usize; D]> {
+    let mut out = Vec::with_capacity(product(dims));
+    let mut idx = [0usize; D];
+    loop {
+        out.push(idx);
+        let mut j = D;
+        loop {
+            if j == 0 {
+                return out;
+            }
+            j -= 1;
+            idx[j] += 1;
+            if idx[j] < dims[j] {
+                break;
+            }
+            idx[j] = 0;
+        }
+    }
+}
+
+/// compact rendering `[1,2,3]` (used in signatures)
+fn cd(d: &[usize]) -> String {
+    let parts: Vec<String> = d.iter().map(|x| if *x == usize::MAX { "MAX".to_string() } else { x.to_string() }).collect();
+    format!("[{}]", parts.join(","))
+}
+
+/// Reference text format, derived from the crate's own `output` test
+/// (`[2,2,3]` of 0..12 is written as "0 1 2\n3 4 5\n\n6 7 8\n9 10 11"): elements of the last dimension
+/// are joined by one space; the sub-blocks of a rank-k block (k >= 2) are joined by k-1 newlines;
+/// nothing follows the last element.
+fn ref_format(dims: &[usize], elems: &[Vec<u8>]) -> Vec<u8> {
+    let mut out = vec![];
+    if dims.len() == 1 {
+        for (i, e) in elems.iter().enumerate() {
+            if i > 0 {
+                out.push(b' ');
+            }
+            out.extend_from_slice(e);
+        }
+    } else {
+        let sub = elems.len() / dims[0];
+        for i in 0..dims[0] {
+            if i > 0 {
+                out.extend(std::iter::repeat(b'\n').take(dims.len() - 1));
+            }
+            out.extend(ref_format(&dims[1..], &elems[i * sub..(i + 1) * sub]));
+        }
+    }
+    out
+}
+
+// ---------------------------------------------------------------------------------------------
+// element values for the IO round trip
+
+const I32_VALS: &[i32] =
+    &[0, 1, -1, 9, 10, -10, 99, 100, 12345, -98765, 1_000_000_007, -1_000_000_007, i32::MAX, i32::MIN, i32::MAX - 1, i32::MIN + 1];
+const U64_VALS: &[u64] = &[
+    0,
+    1,
+    9,
+    10,
+    4_294_967_295,
+    4_294_967_296,
+    1_000_000_000_000_000_000,
+    9_999_999_999_999_999_999,
+    10_000_000_000_000_000_000,
+    1 << 63,
+    u64::MAX - 1,
+    u64::MAX,
+];
+/// candidate tokens; the ones a whitespace-separated byte-oriented reader cannot represent are out of
+/// the round trip's domain and are skipped (and counted)
+const STR_CANDIDATES: &[&str] = &[
+    "a",
+    "Z9",
+    "-",
+    "-0",
+    "007",
+    "hello_world",
+    "x,y;z",
+    "[[1]]",
+    "!@#$%^&*()",
+    "~",
+    "",
+    "a b",
+    "\u{e9}t\u{e9}",
+    "0123456789abcdefghijklmnopqrstuvwxyzABCDEFGHIJKLMNOPQRSTUVWXYZ",
+    "tab\there",
+];
+fn str_in_domain(s: &str) -> bool {
+    !s.is_empty() && s.bytes().all(|b| b.is_ascii_graphic())
+}
+fn str_vals() -> Vec<String> {
+    STR_CANDIDATES.iter().filter(|s| str_in_domain(s)).map(|s| s.to_string()).collect()
+}
+fn rotated<T: Clone>(list: &[T], n: usize, rot: usize) -> Vec<T> {
+    (0..n).map(|k| list[(k + rot) % list.len()].clone()).collect()
+}
+
+// ---------------------------------------------------------------------------------------------
+// atoms: one plain execution of the real code, compared with the reference
+
+fn build<const D: usize>(dims: [usize; D]) -> Result<Tensor<E, D>, String> {
+    let n = product(&dims);
+    catch(|| Tensor::from_vec(dims, (0..n).map(val).collect()))
+        .map_err(|p| format!("shape {}: from_vec with {n} values (= product of the extents) panicked: {p}", cd(&dims)))
+}
+
+fn atom_index<const D: usize>(t: &Tensor<E, D>, dims: &[usize; D], idx: [usize; D], off: usize) -> Result<(), String> {
+    match catch(|| t[idx]) {
+        Ok(v) if v == val(off) => Ok(()),
+        Ok(v) => Err(format!(
+            "shape {}: t[{}] read {v}, expected row-major element #{off} = {} (tensor built by from_vec of 10,11,12,…)",
+            cd(dims),
+            cd(&idx),
+            val(off)
+        )),
+        Err(p) => Err(format!("shape {}: t[{}] panicked on a valid index: {p}", cd(dims), cd(&idx))),
+    }
+}
+
+fn atom_get_index<const D: usize>(t: &Tensor<E, D>, dims: &[usize; D], idx: [usize; D], off: usize) -> Result<(), String> {
+    match catch(|| t.get_index(idx)) {
+        Ok(r) if r == off => Ok(()),
+        Ok(r) => Err(format!("shape {}: get_index({}) = {r}, expected the row-major offset {off}", cd(dims), cd(&idx))),
+        Err(p) => Err(format!("shape {}: get_index({}) panicked on a valid index: {p}", cd(dims), cd(&idx))),
+    }
+}
+
+fn data_of<T: Clone, const D: usize>(t: &Tensor<T, D>) -> Vec<T> {
+    t.iter().cloned().collect()
+}
+
+fn first_diff<T: PartialEq>(a: &[T], b: &[T]) -> usize {
+    a.iter().zip(b.iter()).position(|(x, y)| x != y).unwrap_or(a.len().min(b.len()))
+}
+
+fn atom_write_one<const D: usize>(base: &Tensor<E, D>, dims: &[usize; D], idx: [usize; D], off: usize) -> Result<(), String> {
+    let n = product(dims);
+    let mut t = base.clone();
+    catch(|| {
+        t[idx] = SENTINEL;
+    })
+    .map_err(|p| format!("shape {}: t[{}] = x panicked on a valid index: {p}", cd(dims), cd(&idx)))?;
+    let got = data_of(&t);
+    let mut want: Vec<E> = (0..n).map(val).collect();
+    want[off] = SENTINEL;
+    if got != want {
+        let changed: Vec<usize> = (0..got.len().min(n)).filter(|&k| got[k] != val(k)).collect();
+        return Err(format!(
+            "shape {}: t[{}] = {SENTINEL} must change exactly storage element #{off}; elements changed: {changed:?} (storage length {})",
+            cd(dims),
+            cd(&idx),
+            got.len()
+        ));
+    }
+    match catch(|| t[idx]) {
+        Ok(v) if v == SENTINEL => Ok(()),
+        other => Err(format!("shape {}: after t[{}] = {SENTINEL}, reading the same index gives {other:?}", cd(dims), cd(&idx))),
+    }
+}
+
+const OOB_OPS: &[&str] = &["get_index", "index", "index_mut"];
+
+fn atom_oob<const D: usize>(base: &Tensor<E, D>, dims: &[usize; D], op: &str, idx: [usize; D]) -> Result<(), String> {
+    let n = product(dims);
+    let st = strides(dims);
+    let off = flat(&idx, &st);
+    let alias = if off < n {
+        let all = all_indices(dims);
+        format!("its flattened offset {off} is inside the storage, i.e. it aliases element {}", cd(&all[off]))
+    } else {
+        format!("its flattened offset {off} is outside the storage of {n}")
+    };
+    let head = format!("shape {}: index {} is out of range in one dimension and must be rejected with a panic", cd(dims), cd(&idx));
+    match op {
+        "get_index" => match catch(|| base.get_index(idx)) {
+            Err(_) => Ok(()),
+            Ok(r) => Err(format!("{head}; get_index returned {r} ({alias})")),
+        },
+        "index" => match catch(|| base[idx]) {
+            Err(_) => Ok(()),
+            Ok(v) => Err(format!("{head}; t[idx] read {v} ({alias})")),
+        },
+        "index_mut" => {
+            let mut t = base.clone();
+            match catch(|| {
+                t[idx] = SENTINEL;
+            }) {
+                Err(_) => Ok(()),
+                Ok(()) => {
+                    let got = data_of(&t);
+                    let changed: Vec<usize> = (0..got.len()).filter(|&k| got[k] != val(k)).collect();
+                    Err(format!("{head}; t[idx] = {SENTINEL} succeeded and overwrote storage element(s) {changed:?} ({alias})"))
+                }
+            }
+        }
+        _ => Err(format!("unknown op {op}")),
+    }
+}
+
+const ZERO_OPS: &[&str] = &["new", "from_vec_empty", "from_slice_empty", "read"];
+
+fn atom_ctor_zero<const D: usize>(op: &str, dims: [usize; D]) -> Result<(), String> {
+    let r: Result<usize, String> = match op {
+        "new" => catch(|| Tensor::<E, D>::new(dims, FILL).iter().count()),
+        // the data length EQUALS the product (0), so only the zero-extent check can reject it
+        "from_vec_empty" => catch(|| Tensor::<E, D>::from_vec(dims, Vec::new()).iter().count()),
+        "from_slice_empty" => catch(|| Tensor::<E, D>::from_slice(dims, &[]).iter().count()),
+        "read" => catch(|| {
+            let bytes: &[u8] = b"1 2 3 4 5 6 7 8 9 10 11 12";
+            let mut r = Reader::new(Box::new(bytes));
+            Tensor::<E, D>::read(dims, &mut r).iter().count()
+        }),
+        _ => return Err(format!("unknown op {op}")),
+    };
+    match r {
+        Err(_) => Ok(()),
+        Ok(cnt) => Err(format!("{op} with shape {} (contains a zero extent) did not panic: it built a tensor of {cnt} elements", cd(&dims))),
+    }
+}
+
+const LEN_OPS: &[&str] = &["from_vec", "from_slice"];
+
+fn atom_bad_len<const D: usize>(op: &str, dims: [usize; D], len: usize) -> Result<(), String> {
+    let data: Vec<E> = (0..len).map(val).collect();
+    let r: Result<usize, String> = match op {
+        "from_vec" => catch(|| Tensor::<E, D>::from_vec(dims, data).iter().count()),
+        "from_slice" => catch(|| Tensor::<E, D>::from_slice(dims, &data).iter().count()),
+        _ => return Err(format!("unknown op {op}")),
+    };
+    match r {
+        Err(_) => Ok(()),
+        Ok(cnt) => Err(format!(
+            "{op} with shape {} (needs {} elements) and {len} elements did not panic: it built a tensor holding {cnt} elements",
+            cd(&dims),
+            product(&dims)
+        )),
+    }
+}
+
+/// every valid index of `t` must read `want(k)` for the k-th index; iter() must give the same sequence
+fn expect_all<const D: usize>(t: &Tensor<E, D>, dims: &[usize; D], how: &str, want: &dyn Fn(usize) -> E) -> Result<(), String> {
+    let n = product(dims);
+    let got = data_of(t);
+    let exp: Vec<E> = (0..n).map(want).collect();
+    if got != exp {
+        let k = first_diff(&got, &exp);
+        return Err(format!(
+            "shape {}: {how}: iter() gives {} elements, first difference from the row-major sequence at #{k} (got {:?}, expected {:?})",
+            cd(dims),
+            got.len(),
+            got.get(k),
+            exp.get(k)
+        ));
+    }
+    for (k, idx) in all_indices(dims).into_iter().enumerate() {
+        match catch(|| t[idx]) {
+            Ok(v) if v == want(k) => {}
+            other => return Err(format!("shape {}: {how}: t[{}] gives {other:?}, expected {}", cd(dims), cd(&idx), want(k))),
+        }
+    }
+    Ok(())
+}
+
+fn atom_from_slice<const D: usize>(dims: [usize; D]) -> Result<(), String> {
+    let n = product(&dims);
+    let vals: Vec<E> = (0..n).map(val).collect();
+    let t = catch(|| Tensor::<E, D>::from_slice(dims, &vals)).map_err(|p| format!("shape {}: from_slice with {n} values panicked: {p}", cd(&dims)))?;
+    expect_all(&t, &dims, "tensor built by from_slice", &val)
+}
+
+fn build_new_writes<const D: usize>(dims: [usize; D]) -> Result<Tensor<E, D>, String> {
+    let mut t = catch(|| Tensor::<E, D>::new(dims, FILL)).map_err(|p| format!("shape {}: new panicked on a valid shape: {p}", cd(&dims)))?;
+    expect_all(&t, &dims, "tensor built by new(dims, -1)", &|_| FILL)?;
+    // written in REVERSE index order, so the result does not depend on the order of writes
+    for (k, idx) in all_indices(&dims).into_iter().enumerate().rev() {
+        catch(|| {
+            t[idx] = val(k);
+        })
+        .map_err(|p| format!("shape {}: t[{}] = x panicked on a valid index: {p}", cd(&dims), cd(&idx)))?;
+    }
+    Ok(t)
+}
+
+fn atom_new_writes<const D: usize>(dims: [usize; D]) -> Result<(), String> {
+    let t = build_new_writes(dims)?;
+    expect_all(&t, &dims, "tensor built by new + one write per index", &val)
+}
+
+const ITER_KINDS: &[&str] = &["iter", "iter_mut", "into_iter"];
+
+fn atom_iter<const D: usize>(base: &Tensor<E, D>, dims: &[usize; D], which: &str) -> Result<(), String> {
+    let n = product(dims);
+    let exp: Vec<E> = (0..n).map(val).collect();
+    match which {
+        "iter" => {
+            let got: Vec<E> = catch(|| base.iter().copied().collect()).map_err(|p| format!("iter panicked: {p}"))?;
+            if got != exp {
+                let k = first_diff(&got, &exp);
+                return Err(format!("shape {}: iter() yields {} elements; element #{k} is {:?}, row-major order expects {:?}", cd(dims), got.len(), got.get(k), exp.get(k)));
+            }
+            Ok(())
+        }
+        "into_iter" => {
+            let got: Vec<E> = catch(|| base.clone().into_iter().collect()).map_err(|p| format!("into_iter panicked: {p}"))?;
+            if got != exp {
+                let k = first_diff(&got, &exp);
+                return Err(format!("shape {}: into_iter() yields {} elements; element #{k} is {:?}, row-major order expects {:?}", cd(dims), got.len(), got.get(k), exp.get(k)));
+            }
+            Ok(())
+        }
+        "iter_mut" => {
+            let mut t = base.clone();
+            let cnt = catch(|| {
+                let mut c = 0usize;
+                for (k, x) in t.iter_mut().enumerate() {
+                    *x = 1000 + k as E;
+                    c += 1;
+                }
+                c
+            })
+            .map_err(|p| format!("iter_mut panicked: {p}"))?;
+            if cnt != n {
+                return Err(format!("shape {}: iter_mut() visits {cnt} elements, expected {n}", cd(dims)));
+            }
+            expect_all(&t, dims, "after writing 1000+k through the k-th item of iter_mut()", &|k| 1000 + k as E)
+        }
+        _ => Err(format!("unknown iterator kind {which}")),
+    }
+}
+
+fn write_one<T: Writable>(x: &T) -> Result<Vec<u8>, String> {
+    let mut out: Vec<u8> = vec![];
+    catch(|| {
+        let mut w = Writer::new(Box::new(&mut out));
+        w.write(x);
+        drop(w);
+    })
+    .map_err(|p| format!("writing panicked: {p}"))?;
+    Ok(out)
+}
+
+fn show(b: &[u8]) -> String {
+    let s = String::from_utf8_lossy(b);
+    if s.len() > 160 {
+        format!("{:?}…", &s[..160])
+    } else {
+        format!("{s:?}")
+    }
+}
+
+/// write with the real Writer, read back with Tensor::read and the same shape: same dims, elementwise
+/// equal data, and `==` true
+fn atom_io<T: Clone + PartialEq + Debug + Readable + Writable, const D: usize>(dims: [usize; D], data: &[T]) -> Result<Vec<u8>, String> {
+    let t = catch(|| Tensor::<T, D>::from_vec(dims, data.to_vec())).map_err(|p| format!("shape {}: from_vec panicked: {p}", cd(&dims)))?;
+    let text = write_one(&t).map_err(|m| format!("shape {}: {m}", cd(&dims)))?;
+    let back = catch(|| {
+        let mut r = Reader::new(Box::new(&text[..]));
+        Tensor::<T, D>::read(dims, &mut r)
+    })
+    .map_err(|p| format!("shape {}: Tensor::read of the written text {} panicked: {p}", cd(&dims), show(&text)))?;
+    if back.dims() != &dims {
+        return Err(format!("shape {}: the tensor read back reports dims {}", cd(&dims), cd(back.dims())));
+    }
+    let got = data_of(&back);
+    if got.as_slice() != data {
+        let k = first_diff(&got, data);
+        return Err(format!(
+            "shape {}: wrote {} and read it back with the same shape: {} elements, element #{k} is {:?}, written was {:?}",
+            cd(&dims),
+            show(&text),
+            got.len(),
+            got.get(k),
+            data.get(k)
+        ));
+    }
+    for (k, idx) in all_indices(&dims).into_iter().enumerate() {
+        match catch(|| back[idx].clone()) {
+            Ok(v) if v == data[k] => {}
+            other => return Err(format!("shape {}: tensor read back: t[{}] gives {other:?}, written was {:?}", cd(&dims), cd(&idx), data[k])),
+        }
+    }
+    match catch(|| back == t && t == back) {
+        Ok(true) => Ok(text),
+        other => Err(format!("shape {}: the tensor read back has the same shape and elements but `==` gives {other:?}", cd(&dims))),
+    }
+}
+
+/// the written text is exactly the documented layout of the elements' own renderings
+fn atom_format<T: Clone + Writable, const D: usize>(dims: [usize; D], data: &[T]) -> Result<(), String> {
+    let t = catch(|| Tensor::<T, D>::from_vec(dims, data.to_vec())).map_err(|p| format!("shape {}: from_vec panicked: {p}", cd(&dims)))?;
+    let text = write_one(&t).map_err(|m| format!("shape {}: {m}", cd(&dims)))?;
+    let mut elems = vec![];
+    for x in data {
+        elems.push(write_one(x)?);
+    }
+    let want = ref_format(&dims, &elems);
+    if text != want {
+        let k = first_diff(&text, &want);
+        return Err(format!(
+            "shape {}: written text is {} but the documented layout (spaces inside the last dimension, k-1 newlines between the sub-blocks of a rank-k block, nothing after the last element) is {}; first difference at byte {k}",
+            cd(&dims),
+            show(&text),
+            show(&want)
+        ));
+    }
+    Ok(())
+}
+
+fn io_case<const D: usize>(dims: [usize; D], ty: &str, rot: usize, format_only: bool) -> Result<Vec<u8>, String> {
+    let n = product(&dims);
+    match ty {
+        "i32" => {
+            let d = rotated(I32_VALS, n, rot);
+            if format_only {
+                atom_format(dims, &d).map(|_| vec![])
+            } else {
+                atom_io(dims, &d)
+            }
+        }
+        "u64" => {
+            let d = rotated(U64_VALS, n, rot);
+            if format_only {
+                atom_format(dims, &d).map(|_| vec![])
+            } else {
+                atom_io(dims, &d)
+            }
+        }
+        "String" => {
+            let d = rotated(&str_vals(), n, rot);
+            if format_only {
+                atom_format(dims, &d).map(|_| vec![])
+            } else {
+                atom_io(dims, &d)
+            }
+        }
+        _ => Err(format!("unknown element type {ty}")),
+    }
+}
+fn io_list_len(ty: &str) -> usize {
+    match ty {
+        "i32" => I32_VALS.len(),
+        "u64" => U64_VALS.len(),
+        _ => str_vals().len(),
+    }
+}
+const IO_TYPES: &[&str] = &["i32", "u64", "String"];
+
+/// equal shape and equal elements (built three different ways) must compare equal
+fn atom_eq_same<const D: usize>(dims: [usize; D]) -> Result<(), String> {
+    let n = product(&dims);
+    let vals: Vec<E> = (0..n).map(val).collect();
+    let a = build(dims)?;
+    let b = catch(|| Tensor::<E, D>::from_slice(dims, &vals)).map_err(|p| format!("from_slice panicked: {p}"))?;
+    let c = build_new_writes(dims)?;
+    let d = a.clone();
+    let r = catch(|| [a == b, b == a, a == c, c == a, a == d, !(a != b)]).map_err(|p| format!("== panicked: {p}"))?;
+    if r.iter().all(|&x| x) {
+        Ok(())
+    } else {
+        Err(format!(
+            "shape {}: tensors with the same shape and the same elements must be equal; [from_vec==from_slice, from_slice==from_vec, from_vec==new+writes, new+writes==from_vec, t==t.clone(), !(a!=b)] = {r:?}",
+            cd(&dims)
+        ))
+    }
+}
+
+/// same shape, exactly storage element k different: must compare unequal
+fn atom_eq_changed<const D: usize>(dims: [usize; D], k: usize) -> Result<(), String> {
+    let n = product(&dims);
+    let a = build(dims)?;
+    let mut v: Vec<E> = (0..n).map(val).collect();
+    v[k] = SENTINEL;
+    let b = catch(|| Tensor::<E, D>::from_vec(dims, v)).map_err(|p| format!("from_vec panicked: {p}"))?;
+    match catch(|| (a == b, b == a)) {
+        Ok((false, false)) => Ok(()),
+        other => Err(format!("shape {}: two tensors that differ in storage element #{k} only: (a==b, b==a) = {other:?}, expected both false", cd(&dims))),
+    }
+}
+
+/// same rank, different shape: must compare unequal (interesting when the element counts are equal and
+/// the elements are the same)
+fn atom_eq_shape<const D: usize>(da: [usize; D], db: [usize; D]) -> Result<(), String> {
+    let a = build(da)?;
+    let b = build(db)?;
+    match catch(|| (a == b, b == a)) {
+        Ok((false, false)) => Ok(()),
+        other => Err(format!(
+            "Tensor::from_vec({}, 10,11,…) and Tensor::from_vec({}, 10,11,…) have different shapes ({} and {} elements, identical element sequence where the counts agree) and must not be equal; (a==b, b==a) = {other:?}",
+            cd(&da),
+            cd(&db),
+            product(&da),
+            product(&db)
+        )),
+    }
+}
+
+// ---------------------------------------------------------------------------------------------
+// accumulator
+
+#[derive(Default)]
+struct Acc {
+    n: BTreeMap<&'static str, u64>,
+    firsts: Vec<(&'static str, Violation)>,
+    texts: BTreeSet<u64>,
+    samples: Vec<Value>,
+    flags: BTreeSet<&'static str>,
+}
+
+impl Acc {
+    fn add(&mut self, k: &'static str, v: u64) {
+        *self.n.entry(k).or_insert(0) += v;
+    }
+    fn get(&self, k: &str) -> u64 {
+        self.n.get(k).copied().unwrap_or(0)
+    }
+    fn has(&self, fam: &str) -> bool {
+        self.firsts.iter().any(|(f, _)| *f == fam)
+    }
+    /// evaluate one atom result: count it, record the family's first failure
+    fn check(&mut self, fam: &'static str, evals: u64, r: Result<(), String>, sig: impl FnOnce() -> String, replay: impl FnOnce() -> Value) {
+        self.add("evaluations", evals);
+        self.add(fam, 1);
+        if let Err(m) = r {
+            self.add("failed_cases", 1);
+            if !self.has(fam) {
+                let mut rp = replay();
+                rp["family"] = json!(fam);
+                self.firsts.push((fam, Violation::new(format!("{fam}:{}", sig()), m, rp)));
+            }
+        }
+    }
+    fn merge(&mut self, o: Acc) {
+        for (k, v) in o.n {
+            *self.n.entry(k).or_insert(0) += v;
+        }
+        for (f, v) in o.firsts {
+            if !self.has(f) {
+                self.firsts.push((f, v));
+            }
+        }
+        self.texts.extend(o.texts);
+        self.samples.extend(o.samples);
+        self.flags.extend(o.flags);
+    }
+}
+
+// ---------------------------------------------------------------------------------------------
+// enumeration for one shape
+
+fn to_arr<const D: usize>(v: &[usize]) -> [usize; D] {
+    let mut a = [0usize; D];
+    a.copy_from_slice(v);
+    a
+}
+
+fn check_shape<const D: usize>(dv: &[usize], peers: &[Vec<usize>], me: usize) -> Acc {
+    let mut acc = Acc::default();
+    let dims: [usize; D] = to_arr(dv);
+    let n = product(&dims);
+    let st = strides(&dims);
+    let idxs = all_indices(&dims);
+    acc.add("shapes", 1);
+    // reference self-check: odometer position == sum idx*stride, and the odometer is complete
+    if idxs.len() != n || idxs.iter().enumerate().any(|(k, i)| flat(i, &st) != k) {
+        acc.add("reference_selfcheck_failures", 1);
+    }
+    let rp = |extra: Value| -> Value {
+        let mut v = json!({"rank": D, "dims": dv});
+        if let (Some(o), Some(e)) = (v.as_object_mut(), extra.as_object()) {
+            for (k, x) in e {
+                o.insert(k.clone(), x.clone());
+            }
+        }
+        v
+    };
+
+    // from_vec on the valid shape
+    let built = build(dims);
+    let base = match built {
+        Ok(t) => {
+            acc.check("from_vec_valid", 1, Ok(()), String::new, || json!(null));
+            t
+        }
+        Err(m) => {
+            acc.check("from_vec_valid", 1, Err(m), || cd(dv), || rp(json!({})));
+            return acc;
+        }
+    };
+
+    // index_row_major, get_index (value k for the k-th index => distinct indices address distinct elements)
+    for (k, idx) in idxs.iter().enumerate() {
+        acc.check("index_row_major", 1, atom_index(&base, &dims, *idx, k), || format!("{}:{}", cd(dv), cd(idx)), || rp(json!({"idx": idx.to_vec()})));
+        acc.check("get_index", 1, atom_get_index(&base, &dims, *idx, k), || format!("{}:{}", cd(dv), cd(idx)), || rp(json!({"idx": idx.to_vec()})));
+        if flat_colmajor(idx, &dims) != k {
+            acc.add("valid_indices_layout_sensitive", 1);
+        }
+    }
+    acc.add("valid_indices", n as u64);
+
+    // other constructors, iteration
+    acc.check("from_slice", 2 * n as u64 + 1, atom_from_slice(dims), || cd(dv), || rp(json!({})));
+    acc.check("new_writes", 5 * n as u64 + 1, atom_new_writes(dims), || cd(dv), || rp(json!({})));
+    for which in ITER_KINDS {
+        let ev = if *which == "iter_mut" { 3 * n as u64 } else { n as u64 };
+        acc.check("iter_order", ev, atom_iter(&base, &dims, which), || format!("{which}:{}", cd(dv)), || rp(json!({"which": which})));
+    }
+
+    // a write through IndexMut changes exactly that element
+    for (k, idx) in idxs.iter().enumerate() {
+        acc.check(
+            "index_mut_writes_one",
+            n as u64 + 2,
+            atom_write_one(&base, &dims, *idx, k),
+            || format!("{}:{}", cd(dv), cd(idx)),
+            || rp(json!({"idx": idx.to_vec()})),
+        );
+    }
+
+    // out of range in exactly one dimension
+    let mut first_inside: Option<[usize; D]> = None;
+    let mut first_inside_outcomes: Vec<String> = vec![];
+    for j in 0..D {
+        let mut others = dims;
+        others[j] = 1;
+        let rest = all_indices(&others);
+        for bad in [dims[j], dims[j] + 1, usize::MAX] {
+            for r in &rest {
+                let mut idx = *r;
+                idx[j] = bad;
+                let inside = flat(&idx, &st) < n;
+                acc.add("oob_indices", 1);
+                if inside {
+                    acc.add("oob_indices_flat_offset_inside_storage", 1);
+                    if bad == usize::MAX {
+                        acc.add("oob_indices_inside_storage_by_wraparound", 1);
+                    }
+                    if first_inside.is_none() {
+                        first_inside = Some(idx);
+                    }
+                }
+                for op in OOB_OPS {
+                    let r = atom_oob(&base, &dims, op, idx);
+                    if first_inside == Some(idx) {
+                        first_inside_outcomes.push(format!("{op}: {}", if r.is_ok() { "panicked" } else { "DID NOT PANIC" }));
+                    }
+                    acc.check(
+                        "oob_panics",
+                        1,
+                        r,
+                        || format!("{op}:{}:{}", cd(dv), cd(&idx)),
+                        || rp(json!({"op": op, "idx": idx.to_vec()})),
+                    );
+                    if inside {
+                        acc.add("oob_panics_checked_with_offset_inside_storage", 1);
+                    }
+                }
+            }
+        }
+    }
+
+    // wrong data length
+    let mut lens = vec![0usize, n - 1, n + 1];
+    lens.sort();
+    lens.dedup();
+    lens.retain(|&l| l != n);
+    for len in lens {
+        for op in LEN_OPS {
+            acc.check(
+                "ctor_rejects_bad_len",
+                1,
+                atom_bad_len(op, dims, len),
+                || format!("{op}:{}:len={len}", cd(dv)),
+                || rp(json!({"op": op, "len": len})),
+            );
+        }
+    }
+
+    // IO round trip + text layout
+    let mut sample_text = None;
+    for ty in IO_TYPES {
+        for rot in 0..io_list_len(ty) {
+            let r = io_case(dims, ty, rot, false);
+            if let Ok(text) = &r {
+                acc.texts.insert(fnv(text));
+                if text.windows(3).any(|w| w == b"\n\n\n") {
+                    acc.flags.insert("text_with_three_newlines");
+                }
+                if text.windows(2).any(|w| w == b"\n\n") {
+                    acc.flags.insert("text_with_two_newlines");
+                }
+                let s = String::from_utf8_lossy(text);
+                if s.contains("-2147483648") {
+                    acc.flags.insert("wrote_i32_min");
+                }
+                if s.contains("18446744073709551615") {
+                    acc.flags.insert("wrote_u64_max");
+                }
+                if *ty == "i32" && rot == 0 {
+                    sample_text = Some(show(text));
+                }
+            }
+            acc.check(
+                "io_roundtrip",
+                2 * n as u64 + 3,
+                r.map(|_| ()),
+                || format!("{ty}:{}:rot={rot}", cd(dv)),
+                || rp(json!({"ty": ty, "rot": rot})),
+            );
+            acc.check(
+                "write_format",
+                1,
+                io_case(dims, ty, rot, true).map(|_| ()),
+                || format!("{ty}:{}:rot={rot}", cd(dv)),
+                || rp(json!({"ty": ty, "rot": rot})),
+            );
+        }
+    }
+    acc.add("skipped_out_of_domain", STR_CANDIDATES.iter().filter(|s| !str_in_domain(s)).count() as u64);
+
+    // equality
+    acc.check("eq_data", 6, atom_eq_same(dims), || format!("same:{}", cd(dv)), || rp(json!({"kind": "same"})));
+    for k in 0..n {
+        acc.check("eq_data", 2, atom_eq_changed(dims, k), || format!("changed:{}:#{k}", cd(dv)), || rp(json!({"kind": "changed", "k": k})));
+    }
+    for other in &peers[me + 1..] {
+        let db: [usize; D] = to_arr(other);
+        let same_count = product(&db) == n;
+        acc.check("eq_shape", 2, atom_eq_shape(dims, db), || format!("{}vs{}", cd(dv), cd(other)), || rp(json!({"other": other})));
+        acc.add(if same_count { "eq_shape_pairs_equal_count_equal_data" } else { "eq_shape_pairs_different_count" }, 1);
+    }
+
+    let last = idxs[n - 1];
+    acc.samples.push(json!({
+        "shape": dv,
+        "elements": n,
+        "last_valid_index": last.to_vec(),
+        "reads_storage_element": n - 1,
+        "first_out_of_range_index_with_offset_inside_storage": first_inside.map(|i| cd(&i)),
+        "its_observed_outcomes": first_inside_outcomes,
+        "written_text_i32": sample_text,
+    }));
+    acc
+}
+
+/// every shape of rank D with extents 0..=e that contains a zero extent
+fn check_zero<const D: usize>(e: usize) -> Acc {
+    let mut acc = Acc::default();
+    // the odometer over a box of side e+1 yields every D-tuple with coordinates 0..=e
+    for dims in all_indices(&[e + 1; D]) {
+        if !dims.contains(&0) {
+            continue;
+        }
+        acc.add("zero_extent_shapes", 1);
+        for op in ZERO_OPS {
+            acc.check(
+                "ctor_rejects_zero_extent",
+                1,
+                atom_ctor_zero(op, dims),
+                || format!("{op}:{}", cd(&dims)),
+                || json!({"rank": D, "dims": dims.to_vec(), "op": op}),
+            );
+        }
+    }
+    acc
+}
+
+macro_rules! by_rank {
+    ($d:expr, $f:ident ( $($a:expr),* )) => {
+        match $d {
+            1 => $f::<1>($($a),*),
+            2 => $f::<2>($($a),*),
+            3 => $f::<3>($($a),*),
+            4 => $f::<4>($($a),*),
+            r => panic!("rank {r} is not instantiated"),
+        }
+    };
+}
+
+// ---------------------------------------------------------------------------------------------
+// plain re-execution of one recorded case
+
+fn usizes(v: &Value) -> Result<Vec<usize>, String> {
+    v.as_array().ok_or("replay: expected an array")?.iter().map(|x| x.as_u64().map(|u| u as usize).ok_or_else(|| "replay: expected an integer".to_string())).collect()
+}
+
+fn confirm_d<const D: usize>(v: &Value) -> Result<(), String> {
+    let fam = v["family"].as_str().unwrap_or("");
+    let dv = usizes(&v["dims"])?;
+    if dv.len() != D {
+        return Err("replay: dims do not match the rank".into());
+    }
+    let dims: [usize; D] = to_arr(&dv);
+    let op = v["op"].as_str().unwrap_or("");
+    let idx = || -> Result<[usize; D], String> {
+        let i = usizes(&v["idx"])?;
+        if i.len() != D {
+            return Err("replay: idx does not match the rank".into());
+        }
+        Ok(to_arr(&i))
+    };
+    if fam == "ctor_rejects_zero_extent" {
+        return atom_ctor_zero(op, dims);
+    }
+    if dims.contains(&0) {
+        return Err("replay: zero extent in a case that needs a valid shape".into());
+    }
+    let st = strides(&dims);
+    match fam {
+        "from_vec_valid" => build(dims).map(|_| ()),
+        "index_row_major" => {
+            let i = idx()?;
+            atom_index(&build(dims)?, &dims, i, flat(&i, &st))
+        }
+        "get_index" => {
+            let i = idx()?;
+            atom_get_index(&build(dims)?, &dims, i, flat(&i, &st))
+        }
+        "from_slice" => atom_from_slice(dims),
+        "new_writes" => atom_new_writes(dims),
+        "iter_order" => atom_iter(&build(dims)?, &dims, v["which"].as_str().unwrap_or("")),
+        "index_mut_writes_one" => {
+            let i = idx()?;
+            atom_write_one(&build(dims)?, &dims, i, flat(&i, &st))
+        }
+        "oob_panics" => atom_oob(&build(dims)?, &dims, op, idx()?),
+        "ctor_rejects_bad_len" => atom_bad_len(op, dims, v["len"].as_u64().ok_or("replay: len")? as usize),
+        "io_roundtrip" => io_case(dims, v["ty"].as_str().unwrap_or(""), v["rot"].as_u64().ok_or("replay: rot")? as usize, false).map(|_| ()),
+        "write_format" => io_case(dims, v["ty"].as_str().unwrap_or(""), v["rot"].as_u64().ok_or("replay: rot")? as usize, true).map(|_| ()),
+        "eq_data" => match v["kind"].as_str() {
+            Some("same") => atom_eq_same(dims),
+            _ => atom_eq_changed(dims, v["k"].as_u64().ok_or("replay: k")? as usize),
+        },
+        "eq_shape" => {
+            let o = usizes(&v["other"])?;
+            if o.len() != D || o.contains(&0) {
+                return Err("replay: bad second shape".into());
+            }
+            atom_eq_shape(dims, to_arr(&o))
+        }
+        other => Err(format!("replay: unknown family {other:?}")),
+    }
+}
+
+fn confirm(v: &Value) -> Result<(), String> {
+    let rank = v["rank"].as_u64().unwrap_or(0) as usize;
+    if !(1..=4).contains(&rank) {
+        return Err(format!("replay: rank {rank} is not instantiated"));
+    }
+    by_rank!(rank, confirm_d(v))
+}
+
+// ---------------------------------------------------------------------------------------------
+
+const FAMILIES: &[&str] = &[
+    "from_vec_valid",
+    "index_row_major",
+    "get_index",
+    "from_slice",
+    "new_writes",
+    "iter_order",
+    "index_mut_writes_one",
+    "oob_panics",
+    "ctor_rejects_zero_extent",
+    "ctor_rejects_bad_len",
+    "io_roundtrip",
+    "write_format",
+    "eq_data",
+    "eq_shape",
+];
+
+fn main() {
+    let args = Args::parse();
+    quiet_panics();
+    if args.replay.is_some() {
+        Run::replay_main(&args, &confirm);
+    }
+    let mut run = Run::new(&args, "tensor", "exploration");
+    let max_extent: usize = args.tier.pick(4, 5);
+    const MAX_RANK: usize = 4;
+
+    if catch(|| panic!("probe")).is_ok() {
+        run.machinery_failure("catch() does not observe panics");
+    }
+
+    // shapes, simplest first: rank, element count, lexicographic
+    let mut per_rank: Vec<Vec<Vec<usize>>> = vec![];
+    for d in 1..=MAX_RANK {
+        let mut v: Vec<Vec<usize>> = vec![];
+        let total = max_extent.pow(d as u32);
+        for code in 0..total {
+            let mut c = code;
+            let mut s = vec![0usize; d];
+            for j in (0..d).rev() {
+                s[j] = 1 + c % max_extent;
+                c /= max_extent;
+            }
+            v.push(s);
+        }
+        v.sort_by(|a, b| (product(a), a).cmp(&(product(b), b)));
+        per_rank.push(v);
+    }
+    let jobs: Vec<(usize, usize)> = per_rank.iter().enumerate().flat_map(|(r, v)| (0..v.len()).map(move |i| (r, i))).collect();
+    let expected_shapes: u64 = (1..=MAX_RANK).map(|d| max_extent.pow(d as u32) as u64).sum();
+
+    // one accumulator per shape, computed in parallel, merged in enumeration order
+    let accs: Vec<Acc> = jobs
+        .par_iter()
+        .map(|&(r, i)| {
+            let peers = &per_rank[r];
+            by_rank!(r + 1, check_shape(&peers[i], peers, i))
+        })
+        .collect();
+    let mut total = Acc::default();
+    let mut per_rank_inside = vec![0u64; MAX_RANK];
+    let mut per_rank_eqpairs = vec![0u64; MAX_RANK];
+    for (a, &(r, _)) in accs.into_iter().zip(jobs.iter()) {
+        per_rank_inside[r] += a.get("oob_indices_flat_offset_inside_storage");
+        per_rank_eqpairs[r] += a.get("eq_shape_pairs_equal_count_equal_data");
+        total.merge(a);
+    }
+    let mut expected_zero = 0u64;
+    for d in 1..=MAX_RANK {
+        total.merge(by_rank!(d, check_zero(max_extent)));
+        expected_zero += ((max_extent + 1).pow(d as u32) - max_extent.pow(d as u32)) as u64;
+    }
+
+    // violations: first per family, families in a fixed order
+    for fam in FAMILIES {
+        if let Some((_, v)) = total.firsts.iter().find(|(f, _)| f == fam) {
+            run.violation(v.clone());
+        }
+    }
+
+    // coverage
+    for (k, v) in &total.n {
+        run.cov(k, *v);
+    }
+    let nontrivial = total.get("oob_indices_flat_offset_inside_storage") + total.get("valid_indices_layout_sensitive");
+    run.cov("distinct_nontrivial", nontrivial);
+    run.cov("distinct_written_texts", total.texts.len() as u64);
+    run.cov("oob_inside_storage_by_rank", json!(per_rank_inside));
+    run.cov("eq_shape_equal_count_pairs_by_rank", json!(per_rank_eqpairs));
+    run.cov("max_rank", MAX_RANK as u64);
+    run.cov("max_extent", max_extent as u64);
+    run.cov("families", json!(FAMILIES));
+    run.cov(
+        "rule",
+        "every shape of rank 1..=4 with extents 1..=max_extent (ordered by rank, element count, lexicographic); per shape: every valid multi-index (odometer, last coordinate fastest; the k-th must address storage element k of from_vec(10,11,…)) for Index, get_index and a write through IndexMut; from_slice, new + one write per index, iter/iter_mut/into_iter; every index with exactly one coordinate set to extent, extent+1 or usize::MAX and all other coordinates over all valid values, for get_index, Index and IndexMut (must panic); data lengths 0, n-1, n+1 for from_vec/from_slice (must panic); every shape with extents 0..=max_extent containing a 0 for new, from_vec(empty), from_slice(empty), Tensor::read (must panic); write→Tensor::read round trip and text layout for i32, u64 and String elements with every rotation of a boundary value list; == for same shape same data, same shape one element changed (every position), and every unordered pair of distinct shapes of the same rank. distinct_nontrivial = MEASURED number of distinct (shape, out-of-range index) cases whose flattened offset sum idx*stride is still inside the storage (aliasing is possible without the per-dimension check) + distinct (shape, valid index) cases whose row-major offset differs from the column-major offset (a stride-order error is observable)",
+    );
+    run.cov("exhaustive", true);
+    run.cov(
+        "io_values_note",
+        "the IO round trip cannot enumerate all element values: it uses boundary lists (16 i32 incl. MIN/MAX/negatives, 12 u64 incl. MAX and 10^19, 11 ASCII tokens), every rotation of each list over every shape, so every listed value is written at every position of every shape",
+    );
+
+    // samples: rotate by VERIF_SEED
+    let ns = total.samples.len();
+    if ns > 0 {
+        let step = (ns / 6).max(1);
+        let start = (args.seed as usize) % ns;
+        for k in 0..6 {
+            run.sample(total.samples[(start + k * step + step / 2) % ns].clone());
+        }
+    }
+
+    // non-vacuity self-checks
+    if total.get("reference_selfcheck_failures") != 0 {
+        run.machinery_failure("the reference odometer disagrees with sum idx*stride");
+    }
+    if total.get("shapes") != expected_shapes {
+        run.machinery_failure("not all shapes were enumerated");
+    }
+    if total.get("zero_extent_shapes") != expected_zero {
+        run.machinery_failure("not all zero-extent shapes were enumerated");
+    }
+    for r in 1..MAX_RANK {
+        if per_rank_inside[r] == 0 {
+            run.machinery_failure(&format!("rank {}: no out-of-range index with its flattened offset inside the storage was exercised", r + 1));
+        }
+        if per_rank_eqpairs[r] == 0 {
+            run.machinery_failure(&format!("rank {}: no pair of different shapes with equal element count was compared", r + 1));
+        }
+    }
+    if total.get("oob_indices_inside_storage_by_wraparound") == 0 || total.get("valid_indices_layout_sensitive") == 0 {
+        run.machinery_failure("no wrap-around probe / no layout-sensitive valid index was exercised");
+    }
+    if !total.has("io_roundtrip") && !total.has("write_format") {
+        for f in ["text_with_three_newlines", "text_with_two_newlines", "wrote_i32_min", "wrote_u64_max"] {
+            if !total.flags.contains(f) {
+                run.machinery_failure(&format!("IO round trip never produced: {f}"));
+            }
+        }
+        if total.texts.len() < 100 {
+            run.machinery_failure("implausibly few distinct written texts");
+        }
+    }
+    if nontrivial < 2 {
+        run.machinery_failure("no non-trivial case");
+    }
+
+    run.assume("write_format: the 'documented separators' are taken from the crate's own `output` test ([2,2,3] of 0..12 is written as \"0 1 2\\n3 4 5\\n\\n6 7 8\\n9 10 11\") and the property's anchor (spaces inside the last dimension, one more newline per outer dimension): elements of the last dimension joined by ' ', sub-blocks of a rank-k block joined by k-1 '\\n', nothing after the last element; each element's own text is whatever the real Writer produces for that element alone. The property statement itself only demands the round trip (family io_roundtrip); write_format is a separate family");
+    run.assume("io_roundtrip: String elements are restricted to non-empty tokens of printable non-space ASCII (the Reader is whitespace-separated and byte-oriented); empty, whitespace-containing and non-ASCII candidates are skipped and counted in skipped_out_of_domain");
+    run.assume("equality across shapes can only be expressed for equal rank (different ranks are different types)");
+    run.assume("a panic from the Vec bounds check counts as 'rejected with a panic' for out-of-range indices whose flattened offset is outside the storage; for offsets inside the storage only the per-dimension check can produce it");
+    run.finish(&confirm)
+}
